@@ -89,7 +89,7 @@ def _bundled_dim(b: list) -> int:
 
 
 MODELS = ["lin:1", "lin:2", "lin:3", "div", "nan_after:0.5", "nan_after:0.0",
-          "njit_lin", "real", "raise_after:0.3"]
+          "njit_lin", "real", "raise_after:0.3", "singular_at_origin"]
 
 
 class _ModelFailure(Exception):
@@ -377,6 +377,8 @@ def _make_model(mid: str, sd: int, cd: int, real_eq):
     rnd = random.Random(1000 + (int(arg) if kind == "lin" else 7))
     if kind == "raise_after":
         rnd = random.Random(1001)
+    if kind == "singular_at_origin":
+        rnd = random.Random(1002)
     M = [[round(rnd.uniform(-0.6, 0.3), 3) for _ in range(sd + cd)]
          for _ in range(sd)]
     for i in range(sd):
@@ -384,9 +386,16 @@ def _make_model(mid: str, sd: int, cd: int, real_eq):
     tt = float(arg) if kind == "nan_after" else math.inf
     t_raise = float(arg) if kind == "raise_after" else math.inf
 
+    singular = kind == "singular_at_origin"
+
     def lin(state, t, control, out):
         if t > t_raise:
             raise _ModelFailure(f"model broke down at t={t}")
+        if singular and not any(float(v) != 0.0 for v in state) \
+                and not any(float(v) != 0.0 for v in control):
+            # (a model with a 1/r term: undefined exactly at the origin,
+            # where no training trajectory of the scenario ever is)
+            raise _ModelFailure("model is singular at the origin")
         for i in range(sd):
             acc = 0.0
             row = M[i]
@@ -885,6 +894,14 @@ def _execute_one(doc: dict, sysname: str) -> dict:
                 raised = False
             except ValueError:
                 raised = True
+            except _ModelFailure:
+                # the switch itself called the model and the model failed:
+                # then the switch did not happen - the reference stays where
+                # it was and the next operations tell whether the object did
+                core.bump(res["faults"], "model:raises")
+                res["events"].append(["set_model", mid, "model-failure"])
+                prev_op = kind
+                continue
             if supports:
                 if raised:
                     core.violation(res, "set_model-raised",
